@@ -22,7 +22,7 @@ def main():
         for m in getattr(mod, "MODULES", []):
             names += [n.split(".")[-1] for n in vlib.theorem_names(m)]
         try:
-            ctx = vlib.Ctx(pid, "quick", 1)
+            ctx = vlib.Ctx(pid, "quick", 1, keep_replays=True)
             comps = mod.components(ctx)
             ctx.cleanup()
             cs = "; ".join("`%s` (%s%s)" % (c.name, c.harness, ", monitor `%s`" % c.monitor_args[0] if c.monitor_args else "") for c in comps)
